@@ -260,6 +260,19 @@ PROP_GEN = {
 }
 
 
+# The hand-written model of a property also contains the helper modules it calls (character sets,
+# partitions, loop ranges, string producers).  Where such a helper has a translated tie, that tie is a
+# *supporting obligation* of the property: if the regenerated helper no longer equals the model, the
+# model the property's theorems speak about is no longer the code.
+_REGEX_SUPPORT = ["C20", "C11", "C12", "C15"]
+SUPPORT_GEN = {
+    "C01": _REGEX_SUPPORT, "C02": _REGEX_SUPPORT, "C03": _REGEX_SUPPORT, "C05": _REGEX_SUPPORT, "C07": _REGEX_SUPPORT,
+    "C10": _REGEX_SUPPORT, "C16": _REGEX_SUPPORT, "C18": _REGEX_SUPPORT, "C19": _REGEX_SUPPORT,
+    "C04": ["C20", "C11", "C12"], "C13": ["C20", "C11", "C12"], "C14": ["C20", "C11", "C12"],
+    "C17": ["C08", "C06", "C09"], "C11": ["C20"], "C12": ["C20", "C11"],
+}
+
+
 def parse_assumption_reports(out):
     reports, cur = [], None
     for line in out.splitlines():
